@@ -95,6 +95,106 @@ theorem misaligned_sound (p : Plan) (h : misaligned p = []) (hal : 0 < p.align) 
   | isTrue h0 => exact h0
   | isFalse hne => simp [hal, hne] at this
 
+/-! ## Every result of an operator is live while the operator runs (round 5)
+
+`build_pass` keeping only the results that have a consumer (seeded change C12-r5m2) leaves the unread result of a
+multi-output CPU operator without live range and address; the writer then serialises arena offset 0 for it. The
+Spec counts a tensor as occupying its bytes at every operator that reads *or writes* it. -/
+
+
+theorem foldl_max_ge (f : AOp × Nat → Bool) (l : List (AOp × Nat)) (acc : Nat) :
+    acc ≤ l.foldl (fun acc x => if f x then max acc (x.2 + 1) else acc) acc ∧
+    ∀ x ∈ l, f x = true → x.2 + 1 ≤ l.foldl (fun acc x => if f x then max acc (x.2 + 1) else acc) acc := by
+  induction l generalizing acc with
+  | nil => simp
+  | cons y ys ih =>
+    simp only [List.foldl_cons, List.mem_cons, forall_eq_or_imp]
+    cases hy : f y with
+    | true =>
+      simp only [if_true]
+      have := ih (max acc (y.2 + 1))
+      refine ⟨by omega, fun _ => by omega, this.2⟩
+    | false =>
+      have := ih acc
+      simp only [Bool.false_eq_true, if_false, false_implies, true_and]
+      exact this
+
+theorem born_le (p : Plan) (k : Nat) (o : AOp) (t : Nat) (hk : p.ops[k]? = some o) (ht : t ∈ o.outputs) :
+    born p t ≤ k + 1 := by
+  unfold born
+  cases hf : p.ops.zipIdx.find? (fun x => x.1.outputs.contains t) with
+  | none =>
+    simp
+  | some x =>
+    obtain ⟨o', k'⟩ := x
+    simp only
+    rw [List.find?_eq_some_iff_getElem] at hf
+    obtain ⟨_, i, hi, hget, hbefore⟩ := hf
+    have hlen : i < p.ops.length := by simpa using hi
+    simp only [List.getElem_zipIdx, Nat.zero_add, Prod.mk.injEq] at hget
+    rcases Nat.lt_or_ge k i with hki | hge
+    · have := hbefore k hki
+      have hk' : k < p.ops.length := by omega
+      simp only [List.getElem_zipIdx] at this
+      have hok : p.ops[k] = o := by
+        have := List.getElem?_eq_getElem hk'
+        rw [this] at hk; exact Option.some.inj hk
+      simp [hok, ht] at this
+    · omega
+
+theorem le_dies (p : Plan) (k : Nat) (o : AOp) (t : Nat) (hk : p.ops[k]? = some o) (ht : t ∈ o.outputs ∨ t ∈ o.inputs) :
+    k + 1 ≤ dies p t := by
+  have hlen : k < p.ops.length := by
+    rcases Nat.lt_or_ge k p.ops.length with h | h
+    · exact h
+    · rw [List.getElem?_eq_none h] at hk; cases hk
+  unfold dies
+  split
+  · omega
+  · have hmem : (o, k) ∈ p.ops.zipIdx := by
+      rw [List.mem_zipIdx_iff_getElem?]; simpa using hk
+    have := (foldl_max_ge (fun x => x.1.inputs.contains t || x.1.outputs.contains t) p.ops.zipIdx (born p t)).2 (o, k) hmem
+      (by rcases ht with h | h <;> simp [h])
+    exact this
+
+/-- **Every result of an operator of the output graph is live while that operator runs, read or not.** -/
+theorem unread_result_is_live_at_its_writer (p : Plan) (k : Nat) (o : AOp) (t : Nat)
+    (hk : p.ops[k]? = some o) (ht : t ∈ o.outputs) : liveAt p t (k + 1) :=
+  ⟨born_le p k o t hk ht, le_dies p k o t hk (Or.inl ht)⟩
+
+theorem results_of_one_operator_coexist (p : Plan) (k : Nat) (o : AOp) (a b : Nat)
+    (hk : p.ops[k]? = some o) (ha : a ∈ o.outputs) (hb : b ∈ o.outputs) : liveOverlap p a b = true := by
+  have h1 := unread_result_is_live_at_its_writer p k o a hk ha
+  have h2 := unread_result_is_live_at_its_writer p k o b hk hb
+  unfold liveAt at h1 h2
+  unfold liveOverlap
+  simp only [Bool.and_eq_true, decide_eq_true_eq]
+  omega
+
+theorem operand_and_result_coexist (p : Plan) (k : Nat) (o : AOp) (a b : Nat)
+    (hk : p.ops[k]? = some o) (ha : a ∈ o.inputs) (hb : b ∈ o.outputs) (hborn : born p a ≤ k + 1) :
+    liveOverlap p a b = true := by
+  have h1 := le_dies p k o a hk (Or.inr ha)
+  have h2 := unread_result_is_live_at_its_writer p k o b hk hb
+  unfold liveAt at h2
+  unfold liveOverlap
+  simp only [Bool.and_eq_true, decide_eq_true_eq]
+  omega
+
+-- non-vacuity: x -> Ethos-U op -> c1 -> CPU operator with results A (read by the next operator) and B (read by
+-- nobody, planned at offset 0 with its full size, on top of the operator's own operand c1) -> CPU operator -> q
+def unreadDemo (offB : Nat) : Plan :=
+  { tensors := [⟨1024, some 0, false⟩, ⟨100, none, false⟩, ⟨4096, some 0, false⟩, ⟨1024, some 1024, false⟩,
+                ⟨1024, some 2048, false⟩, ⟨2048, some offB, false⟩, ⟨1024, some 0, false⟩],
+    ops := [⟨true, 32, [1, 2, 0], [3], none⟩, ⟨false, 32, [3], [4, 5], none⟩, ⟨false, 32, [4], [6], none⟩],
+    inputs := [0], outputs := [6], scratch := some 2, fast := none, align := 16 }
+example : liveAt (unreadDemo 0) 5 2 := unread_result_is_live_at_its_writer (unreadDemo 0) 1 _ 5 rfl (by decide)
+example : born (unreadDemo 0) 5 = 2 ∧ dies (unreadDemo 0) 5 = 2 := by decide
+/-- the unread result on top of the operand of its own operator, or on top of its sibling result, is a conflict … -/
+example : conflicts (unreadDemo 0) = [(3, 5)] ∧ conflicts (unreadDemo 2048) = [(4, 5)] := by decide
+/-- … and with bytes of its own the plan is accepted and the extent accounts for it -/
+example : conflicts (unreadDemo 3072) = [] ∧ requiredExtent (unreadDemo 3072) = 5120 := by decide
+
 -- non-vacuity: the plan measured in DESIGN.md (input and output of one Ethos-U operator share offset 0)
 def demo : Plan :=
   { tensors := [⟨2048, some 0, false⟩, ⟨100, none, false⟩, ⟨8192, some 0, false⟩, ⟨4096, some 0, false⟩, ⟨4096, some 4096, false⟩],
